@@ -135,19 +135,27 @@ def component_reuse(ctx, digests):
         rng.shuffle(texts)
         D = Dialect.get_or_raise(d)
         tk, ps, gn = D.tokenizer(), D.parser(), D.generator()
-        for sql in texts:
+        for ti, sql in enumerate(texts):
             if ctx.expired():
                 break
+            if ti % 4 == 0:
+                # inputs that end in the middle of "something": a line break, a comment, trailing blanks
+                sql = sql + ("\n", "\r\n", " -- c\n", "  ")[(ti // 4) % 4]
+
+            def positions(toks):
+                return [(t.token_type.name, t.text, t.line, t.col, t.start, t.end) for t in toks]
 
             def fresh():
                 # same calls as reused(), on components created for this statement alone
                 D2 = Dialect.get_or_raise(d)
-                trees = D2.parser().parse(D2.tokenizer().tokenize(sql), sql)
-                return [D2.generator().generate(t) if t is not None else "" for t in trees]
+                toks = D2.tokenizer().tokenize(sql)
+                trees = D2.parser().parse(toks, sql)
+                return [D2.generator().generate(t) if t is not None else "" for t in trees], positions(toks)
 
             def reused():
-                trees = ps.parse(tk.tokenize(sql), sql)
-                return [gn.generate(t) if t is not None else "" for t in trees]
+                toks = tk.tokenize(sql)
+                trees = ps.parse(toks, sql)
+                return [gn.generate(t) if t is not None else "" for t in trees], positions(toks)
 
             ntok = len(sql) // 3 + 10
             st1, a = guarded(lambda: _digest(fresh), ntok)
